@@ -48,6 +48,13 @@ DAMAGE_KINDS = [
     "truncate_byte", "truncate_line", "subst_printable", "subst_control", "subst_nonascii", "subst_nul",
     "drop_line", "dup_line", "swap_lines", "drop_header", "token_subst", "token_insert", "append_garbage",
     "empty", "random_bytes", "token_soup", "strip_final_nl", "header_only_no_nl", "unprefixed_line", "bare_bullet",
+    "note_head_token", "note_head_token",
+]  # fmt: skip
+
+HEAD_TOKENS = [
+    "230229", "240229", "210229", "000229", "240230", "240431", "240931", "241301", "240001", "240100", "999999", "240199",
+    "210229#AG", "230229#00", "240229#00", "240230#01", "241301#zz", "000000#00", "240101#0l", "240101#zzz",
+    "2023-02-29", "2024-02-29", "2100-02-29", "2024-04-31", "2024-00-10", "2024-13-01", "P9", "P1", "o", "x", "1230", "2460",
 ]  # fmt: skip
 
 
@@ -106,6 +113,26 @@ def damage(data: bytes, kind: str, rng: random.Random) -> bytes:
     if kind == "unprefixed_line":
         i = rng.randrange(len(lines) + 1)
         return b"\n".join(lines[:i] + [rng.choice([b"stray words here", b"  * orphan bullet", b" leading space", b"O capital", b"-no space"])] + lines[i:])
+    if kind == "note_head_token":
+        # a date / ZID / priority look-alike in the positions where the compiler
+        # interprets such words: directly after the kind character (and priority)
+        idx = [i for i, ln in enumerate(lines) if ln[:2] in (b"- ", b"o ", b"x ", b"~ ", b"< ", b"> ")]
+        if not idx:
+            return data + b"- " + rng.choice(HEAD_TOKENS).encode() + b" tail\n"
+        i = rng.choice(idx)
+        words = lines[i].split(b" ")
+        pos = 1
+        if len(words) > 2 and len(words[1]) == 2 and words[1][:1] == b"P":
+            pos = 2
+        toks = [rng.choice(HEAD_TOKENS).encode()]
+        if rng.random() < 0.4:
+            toks.append(rng.choice(HEAD_TOKENS).encode())
+        if rng.random() < 0.3 and len(words) > pos:
+            words[pos : pos + 1] = toks  # replace the first word (e.g. the note's own ZID)
+        else:
+            words[pos:pos] = toks
+        lines[i] = b" ".join(words)
+        return b"\n".join(lines)
     if kind == "bare_bullet":
         # bullets that consist of (nearly) nothing next to a `:: ` property
         i = rng.randrange(len(lines) + 1)
